@@ -51,6 +51,15 @@ def main():
         norm = [g.rstrip('0').rstrip('.') if re.match(r'^-?\d+\.\d+$', g) else g for g in got]
         if rc != 0 or norm != want:
             fails += 1; print('FAIL label=%s program=%s detail=printed %s, expected %s' % (lab, json.dumps(src), got, want))
+    POST = [('int i = 5; int j = i++; echo(j); echo(i); int k = i--; echo(k); echo(i);', ['5', '6', '6', '5'], 'eval.postfix.yields_the_old_value'),
+            ('long l = 4000000000L; long m = l++; echo(m); echo(l); l--; l--; echo(l);', ['4000000000', '4000000001', '3999999999'], 'eval.postfix.long_moves_by_one'),
+            ('int n = 0; for (int i = 0; i < 4; i++) { n = n + i; } echo(n);', ['6'], 'eval.postfix.int_moves_by_one')]
+    for bodyc, want, lab in POST:
+        src = 'function main() -> void { %s }\n' % bodyc
+        rc, out = run(bloch, src); n += 1
+        got = [l.strip() for l in out.strip().split('\n') if l.strip()]
+        if rc != 0 or got != want:
+            fails += 1; print('FAIL label=%s program=%s detail=printed %s, expected %s' % (lab, json.dumps(src), got, want))
     print(json.dumps(dict(oracle_checks=n, oracle_failures=fails)))
     sys.exit(1 if fails else 0)
 main()
